@@ -46,7 +46,7 @@ Definition shf_cw (k3 : kcp) : Z :=
 
 Definition shf_ph4 (k3 : kcp) (ft : Z) : list seg * list seg * Z * Z :=
   if ft =? FLUSH_FULL
-  then admit (snd_queue k3) (snd_buf k3) (conv k3) (snd_una k3) (snd_nxt k3) (shf_cw k3) 0
+  then admit_segs (snd_queue k3) (snd_buf k3) (conv k3) (snd_una k3) (snd_nxt k3) (shf_cw k3) 0
   else (snd_queue k3, snd_buf k3, snd_nxt k3, 0).
 
 Definition shf_k4 (k3 : kcp) (sq sb : list seg) (nxt : Z) : kcp :=
@@ -259,14 +259,14 @@ Qed.
 Lemma shf_admit p cv cw : forall sq1 sq2, Forall2 shf_sq sq1 sq2 ->
   forall sb1 sb2 una1 una2 nxt1 nxt2 n sq1' sb1' nxt1' n',
   Forall2 (shf_sbw p) sb1 sb2 -> una2 = sh (ko p) una1 -> nxt2 = sh (ko p) nxt1 -> is_u32 nxt1 -> is_u32 cv ->
-  admit sq1 sb1 cv una1 nxt1 cw n = (sq1', sb1', nxt1', n') ->
-  exists sq2' sb2' nxt2', admit sq2 sb2 cv una2 nxt2 cw n = (sq2', sb2', nxt2', n') /\
+  admit_segs sq1 sb1 cv una1 nxt1 cw n = (sq1', sb1', nxt1', n') ->
+  exists sq2' sb2' nxt2', admit_segs sq2 sb2 cv una2 nxt2 cw n = (sq2', sb2', nxt2', n') /\
     Forall2 shf_sq sq1' sq2' /\ Forall2 (shf_sbw p) sb1' sb2' /\ nxt2' = sh (ko p) nxt1' /\ is_u32 nxt1'.
 Proof.
   induction 1 as [|s1 s2 t1 t2 Hs Ht IH]; intros sb1 sb2 una1 una2 nxt1 nxt2 n sq1' sb1' nxt1' n' Hsb Hu Hn Hn32 Hcv E.
-  - cbn [admit] in *. inversion E; subst. do 3 eexists. split; [reflexivity|].
+  - cbn [admit_segs] in *. inversion E; subst. do 3 eexists. split; [reflexivity|].
     shf_split; try assumption; try reflexivity. constructor.
-  - cbn [admit] in *. rewrite Hu, Hn, shf_itd_add.
+  - cbn [admit_segs] in *. rewrite Hu, Hn, shf_itd_add.
     destruct (itimediff nxt1 (u32 (una1 + cw)) >=? 0).
     + inversion E; subst. do 3 eexists. split; [reflexivity|].
       shf_split; try assumption; try reflexivity. constructor; assumption.
